@@ -33,11 +33,11 @@ CHECKS.update({
         note="Uses only the exported sst API, adding level-0 tables exactly as DB.rotateMemtable does. Tombstones may persist; only visibility and ordering are compared.",
         technique="property-based testing: rapid generated histories vs map model + layout invariant after every step"),
     "C07": dict(level="exploration", design="DESIGN.md section 4 C07",
-        text="Generated put/delete/get/scan histories on a real dkv.DB with tiny memtable/file sizes, with the table writes of flush and compaction tasks held and released by the program through a gating FileSystem and reads parked between their two snapshots (verif hook) while a flush swap completes. Every read is compared with a map model.",
+        text="Generated put/delete/get/scan histories on a real dkv.DB with tiny memtable/file sizes, with the table writes of flush and compaction tasks held and released by the program through a gating FileSystem and reads parked between their two snapshots (verif hook) while a flush swap completes. Every read is compared with a map model. Scan prefixes are drawn from the whole adversarial pool (including prefixes ending in 0xFF).",
         note="The moments explored are those reachable by holding table writes and by the park point; other interleavings of the background goroutines are not enumerated.",
         technique="property-based testing: rapid stateful histories vs map model with harness-owned background scheduling"),
     "C08": dict(level="fault_enumeration", design="DESIGN.md section 4 C08",
-        text="The C07 history plus Checkpoint/Retain/holds of WAL and checkpoint-file saves. Every storage operation is journaled; for each retained handle the storage as of later operations is rebuilt and the handle is opened on it and compared (Get of every key + full scan) with the model copy taken at the Checkpoint call. The thorough tier enumerates every storage operation after the handle was returned (VERIF_CRASH_ALL=1); quick restores at the end plus up to three drawn points. Restored databases are written to, checkpointed and restored again up to depth 3. The histories are sampled, the crash points are enumerated: fault enumeration.",
+        text="The C07 history plus Checkpoint/Retain/holds of WAL and checkpoint-file saves. Every storage operation is journaled; for each retained handle the storage as of later operations is rebuilt and the handle is opened on it and compared (Get of every key + full scan) with the model copy taken at the Checkpoint call. The thorough tier enumerates every storage operation after the handle was returned (VERIF_CRASH_ALL=1); quick restores at the end plus up to three drawn points. Restored databases are written to, checkpointed and restored again up to depth 3. The histories are sampled, the crash points are enumerated: fault enumeration. Retention updates may be late by up to three checkpoints; the first reads of every restored database come from three goroutines at once.",
         note="Save/Delete/Copy are treated as atomic; a crash is modelled between storage operations. UpdateRetainedCheckpoints is issued only when no checkpoint save is pending.",
         technique="property-based testing with crash-point enumeration over a journaled file system; snapshot oracle"),
     "C09": dict(level="exploration", design="DESIGN.md section 4 C09",
@@ -56,7 +56,7 @@ CHECKS.update({
         note="Tie order is free; a timer set at or before the current minimum watermark is a documented no-op.",
         technique="property-based testing: rapid stateful sequences vs a pending-timer set model"),
     "C11": dict(level="exploration", design="DESIGN.md section 4 C11",
-        text="(a) wmark.Watermarker over arbitrary timestamp sequences: monotone, strictly below the maximum, exactly max-1ns. (b) Real operators with 1..4 upstream ids under generated interleavings of events, watermarks, flushes and checkpoints: every ProcessEventBatch request must carry the minimum of the latest upstream watermarks and no timer beyond it may fire. The runner-side clause is covered in the runner-level harness (C04/C16) when built. Watermarker timestamps are drawn from the whole time.Time range (before 1970, around the epoch, outside the int64-nanosecond window).",
+        text="(a) wmark.Watermarker over arbitrary timestamp sequences: monotone, strictly below the maximum, exactly max-1ns. (b) Real operators with 1..4 upstream ids under generated interleavings of events, watermarks, flushes and checkpoints: every ProcessEventBatch request must carry the minimum of the latest upstream watermarks and no timer beyond it may fire. The runner-side clause (watermarks stamped from what was forwarded, under harness-driven ticks) is checked in the cluster harness of C04. Watermarker timestamps are drawn from the whole time.Time range (before 1970, around the epoch, outside the int64-nanosecond window).",
         note="Before the first watermark message the operator reports year 1, treated as the epoch.",
         technique="property-based testing: rapid histories vs a min-of-upstreams model"),
     "C06": dict(level="exploration", design="DESIGN.md section 4 C06",
@@ -67,11 +67,11 @@ CHECKS.update({
 
 CHECKS.update({
     "C02": dict(level="exploration", design="DESIGN.md section 4 C02",
-        text="One real Operator and 1..4 sender goroutines with generated sequences of events, watermarks and barriers for 1..3 checkpoints. A generated schedule picks which sender advances; a step ends when that sender's HandleEvent returned or parked in the alignment wait (reported by a verif hook). At every OperatorCheckpointComplete the handler must have applied exactly the pre-barrier events of every sender and must not have acted on post-barrier watermarks; each reported checkpoint is then restored and probed.",
+        text="One real Operator and 1..4 sender goroutines with generated sequences of events, watermarks and barriers for 1..3 checkpoints. A generated schedule picks which sender advances; a step ends when that sender's HandleEvent returned or parked in the alignment wait (reported by a verif hook). At every OperatorCheckpointComplete the handler must have applied exactly the pre-barrier events of every sender and must not have acted on post-barrier watermarks; each reported checkpoint is then restored and probed. The schedule also contains expiries of the handler batch's time-out, whose token reaches the operator's loop whenever the loop picks it.",
         note="The schedule is owned at the granularity of HandleEvent calls; the re-entry order of released senders is left to the Go scheduler (the oracle does not depend on it).",
         technique="property-based testing: rapid generated schedules over real goroutines with hook-reported parking; cut-membership oracle"),
     "C12": dict(level="exploration", design="DESIGN.md section 4 C12",
-        text="snapshots.Store over a journaling in-memory StorageLocation: generated sequences of create-checkpoint / create-savepoint / operator and runner acknowledgements (expected, duplicate, foreign; pending, stale, future ids) / restarts. A model of the pending checkpoint decides when a publication must happen (awaited on the store's CheckpointEvents) and when it must not; every published file is decoded and compared entry by entry. A 'new assembly' op abandons the pending checkpoint as jobs.Job.start does (its id stays used, later acknowledgements for it are foreign); in a quarter of the cases operator i and source runner i share a node id.",
+        text="snapshots.Store over a journaling in-memory StorageLocation: generated sequences of create-checkpoint / create-savepoint / operator and runner acknowledgements (expected, duplicate, foreign; pending, stale, future ids) / restarts. A model of the pending checkpoint decides when a publication must happen (awaited on the store's CheckpointEvents) and when it must not; every published file is decoded and compared entry by entry. A 'new assembly' op abandons the pending checkpoint as jobs.Job.start does (its id stays used, later acknowledgements for it are foreign); in a quarter of the cases operator i and source runner i share a node id. In a third of the cases the acknowledgement that completes a checkpoint is sent a second time from another goroutine while the store asks the splitter for its state.",
         note="An id handed out but never published may be reused after a restart. Split states are compared as a multiset.",
         technique="property-based testing: rapid model-based call sequences vs a pending-checkpoint model"),
     "C13": dict(level="fault_enumeration", design="DESIGN.md section 4 C13",
@@ -79,7 +79,7 @@ CHECKS.update({
         note="Write/Remove are atomic in the journal; a crash inside one Write is out of scope. The newest checkpoint is determined by decoding the files, independently of their names.",
         technique="property-based testing with crash-point enumeration over a journaled storage location; gated asynchronous steps and hook-held publication starts"),
     "C15": dict(level="exploration", design="DESIGN.md section 4 C15",
-        text="The real jobs.Job with recording fake operators and source runners, a FrozenClock and a journaling storage location: generated histories of worker starts, graceful stops, kills (heartbeat expiry), checkpoint ticks, full and partial acknowledgements and injected Deploy failures. The recorded calls are examined after every step: deployments address exactly WorkerCount registered live operators and runners and hand over the latest completed checkpoint, StartCheckpoint only reaches the current healthy assembly, ticks start checkpoints, full acknowledgement publishes a snapshot, a lost assembly is replaced when enough live workers exist. Deployment windows: the Deploy calls of a round block while a drawn member deregisters or stops heartbeating, then they are let go (the round is triggered by a worker starting, or by a member leaving with a standby present).",
+        text="The real jobs.Job with recording fake operators and source runners, a FrozenClock and a journaling storage location: generated histories of worker starts, graceful stops, kills (heartbeat expiry), checkpoint ticks, full and partial acknowledgements and injected Deploy failures. The recorded calls are examined after every step: deployments address exactly WorkerCount registered live operators and runners and hand over the latest completed checkpoint, StartCheckpoint only reaches the current healthy assembly, ticks start checkpoints, full acknowledgement publishes a snapshot, a lost assembly is replaced when enough live workers exist. Deployment windows: the Deploy calls of a round block while a drawn member deregisters or stops heartbeating, then they are let go (the round is triggered by a worker starting, or by a member leaving with a standby present). In a third of the cases the job process is started from a savepoint made by a real Store; every later deployment must still hand over the newest completed checkpoint.",
         note="Liveness is bounded progress under harness-owned steps. Worker-side recovery is covered by the cluster-level check C01 when built.",
         technique="property-based testing: rapid generated histories against recording fakes; invariants over the call history"),
 })
@@ -90,7 +90,7 @@ CHECKS.update({
         note="Fault points are drawn, goroutine interleavings between gates are not enumerated. A killed worker models a dead process. A stall of 15 s with live workers and undelivered input is reported as a stuck pipeline.",
         technique="property-based testing / fault injection: rapid generated inputs and fault plans on a real in-process cluster; per-invocation ordinal oracle"),
     "C04": dict(level="exploration", design="DESIGN.md section 4 C04",
-        text="The C01 cluster without failures, with drawn batch sizes, read batches, a 1 ms batch time-out and per-call KeyEventBatch latencies so that asynchronous completions arrive out of order. Every operator's incoming stream is recorded at the transport: each record exactly once at the operator owning its key group, per (split,key) in split order, watermarks monotone and below the largest forwarded timestamp, barrier positions consistent with reported split positions, plus the C01 state oracle.",
+        text="The C01 cluster without failures, with drawn batch sizes, read batches, a 1 ms batch time-out and per-call KeyEventBatch latencies so that asynchronous completions arrive out of order. Every operator's incoming stream is recorded at the transport: each record exactly once at the operator owning its key group, per (split,key) in split order, watermarks monotone and below the largest forwarded timestamp, barrier positions consistent with reported split positions, plus the C01 state oracle. Subject keys include the empty key and a NUL byte; the source runners' watermark ticker is driven by the plan (hook), and every watermark must be identical in every operator's stream and derived from a record its runner forwarded before it (this is also the runner-side clause of C11).",
         note="Timings are drawn, interleavings not enumerated; watermark assertions are limited to orderings that hold under any delivery lag.",
         technique="property-based testing: rapid generated inputs/timings on a real in-process cluster; stream-recording oracle"),
     "C16": dict(level="exploration", design="DESIGN.md section 4 C16",
@@ -98,7 +98,7 @@ CHECKS.update({
         note="The Kinesis part needs loopback sockets; discovery runs on 1 ms wall-clock ticks with 6 ms settling per step.",
         technique="property-based testing: rapid generated histories; stream/assignment oracles; model-based for the tracker"),
     "C14": dict(level="exploration", design="DESIGN.md section 4 C14",
-        text="Cluster runs in which HandleCreateSavepoint is called at a drawn moment - in half of the cases while a periodic checkpoint is held pending (it must fold into it: same id, no second StartCheckpoint), in a third while a further checkpoint completes during the artifact's assembly. Once the artifact exists everything is stopped and every file of the working storage and of the job's checkpoint directory is deleted; a new job is started from the savepoint URI with the same or another worker count and must process the rest of the input under the exactly-once oracle and end with the correct totals. In a fifth of the cases the goroutine that publishes the savepoint's checkpoint is held at its start while the next periodic checkpoint is started; in half of the cases the restored job is itself saved (right after its deployment or after the rest of the input), wiped and restored once more, with a bias to fewer workers and small memtables.",
+        text="Cluster runs in which HandleCreateSavepoint is called at a drawn moment - in half of the cases while a periodic checkpoint is held pending (it must fold into it: same id, no second StartCheckpoint), in a third while a further checkpoint completes during the artifact's assembly. Once the artifact exists everything is stopped and every file of the working storage and of the job's checkpoint directory is deleted; a new job is started from the savepoint URI with the same or another worker count and must process the rest of the input under the exactly-once oracle and end with the correct totals. In a fifth of the cases the goroutine that publishes the savepoint's checkpoint is held at its start while the next periodic checkpoint is started; in half of the cases the restored job is itself saved (right after its deployment or after the rest of the input), wiped and restored once more, with a bias to fewer workers and small memtables. TestPropLocalDirectory checks the real LocalDirectory against a map model (Write/Copy/Remove/Read/List): a copy must be a file of its own.",
         note="Job and operator storage share one in-memory file system through a StorageLocation adapter; the real snapshot-store code creates and restores the artifact.",
         technique="property-based testing: rapid generated runs with savepoint/wipe/restore; exactly-once oracle as the differential"),
 })
